@@ -50,6 +50,37 @@ CLAIMS = {
         note=BASE_NOTE + "serde_json's tokenizer and jiff's RFC 3339 codec are dependencies: a string value carries what jiff's parser makes of it, supplied by the implementation and re-checked at exec time.",
         technique="Lean 4 proof (induction over member lists, permutation induction) + differential correspondence incl. generic-parser oracle",
         design="§6 C14"),
+    "C01": dict(
+        text=("One skeleton for local tokens (6 back ends) and one for public tokens, parametric in a scheme; local_roundtrip holds for every scheme with the length/inverse laws and the concrete "
+              "executable instances satisfy them by construction; nonce_draw_is_consumed is re-decided against V::nonce()?.len() re-read from the running code; pipeline_roundtrip_local covers "
+              "seal(own nonce)->Display->FromStr->unseal->decode->validate; public_roundtrip for every scheme whose signatures verify (PublicLaws, hypothesis); fixed-width signature serialisation. "
+              "Tie: encrypt()/sign() with the library's own randomness round-tripped on all back ends (thousands of randomised signatures), own-nonce tokens opened by the model, injected-nonce tokens byte-compared."),
+        note=BASE_NOTE + "Correctness of the signature primitives (sign then verify) is a hypothesis (PublicLaws); the Lean primitives are validated against three implementations, not proved.",
+        technique="Lean 4 proof (generic over scheme records; concrete instance by fixLen construction; decide over extracted facts) + differential correspondence + own-RNG round-trip oracle",
+        design="§6 C01"),
+    "C02": dict(
+        text=("Exact acceptance characterisations for every back end (unsealLocal_ok_iff, unsealPublic_ok_iff: accepted IFF the payload splits into exactly-sized nonce/ciphertext/tag resp. message/signature and the "
+              "tag EQUALS the MAC of the PAE of exactly these components / the signature verifies), full-length tag comparison, uniqueness of the split, injectivity of the authenticated input in every component "
+              "(from C15), assertion refusal on v1/v2, and an explicit reduction of any accepted non-issued token to a MAC forgery (Unforgeable is a hypothesis of the corollary only). "
+              "Tie: ~38k mutants (bit flips, truncations, extensions, boundary shifts, footer/assertion edits, relabels, neighbour keys) must be rejected by the library and by the model."),
+        note=BASE_NOTE + "The final step 'no forged tag verifies' is MAC/signature unforgeability: a stated hypothesis, not claimed. A second valid ECDSA signature (r, n-s) is outside the property's mutation list.",
+        technique="Lean 4 proof (iff characterisation + PAE injectivity + reduction) + mutation correspondence",
+        design="§6 C02"),
+    "C03": dict(
+        text=("specCfg instance = specification model (written from the PASETO documents; all 36 local vectors reproduce), cfgOf instance = implementation model; impl_eq_spec proved generically, "
+              "counters_full_width decided on cfgOf; ctr64_eq_ctr128 / ctr64_ne_ctr128 characterise exactly when a 64-bit counter deviates; siblings_agree_v3/v4. Tie: injected-nonce tokens byte-identical to the model "
+              "(incl. zero/ones/carry nonces), specification-built tokens (two-stage) opened by every back end incl. v1 tokens whose embedded counter wraps, siblings compared directly, Ed25519 and RFC 6979 ECDSA signatures "
+              "byte-identical, randomised signatures verified by the independent Lean verifier and model-built ones by the library."),
+        note=BASE_NOTE + "The hand-written cfgOf fields (counter width, padding) are kept honest by the correspondence on the inputs where they matter (carry nonces, spec-built tokens).",
+        technique="Lean 4 proof (generic impl = spec under decidable conformance; omega for counter arithmetic) + three-way differential correspondence",
+        design="§6 C03"),
+    "C12": dict(
+        text=("tokenUnseal mirrors SealedToken::unseal with a trace of invoked caller code: auth_fail_no_events, auth_fail_independent, decode_only_after_unseal_ok, validate_only_after_decode, trace_order; "
+              "per back end decode_implies_authentic_local/public (decoder invoked only if the tag equals the MAC of exactly these components / the signature verified) and the possible error kinds. "
+              "Tie: (a) scripted Version/Payload/Validate drive the real pipeline through every outcome combination, traces compared; (b) all C02 mutants on six back ends with recording decoder/validator: counts stay 0."),
+        note=BASE_NOTE + "The accessor clause (unverified_footer only) is a compile-time fact covered with C18's probes.",
+        technique="Lean 4 proof (trace semantics of the pipeline + acceptance iff) + recording-decoder correspondence",
+        design="§6 C12"),
 }
 
 def main():
